@@ -164,8 +164,23 @@ def correspondence(ctx, rebound):
     bad_h = run_jobs(ctx, "hs", "bad_merge_cases", hterms, 20)
     ctx.obligation("correspondence:C13 reb_collision_search+hardsphere: log and all particle doubles bit-for-bit on %d runs" % len(hterms),
                    bad_h == [], "mismatching cases: %s" % [hinfo[b] for b in (bad_h or [])[:2]])
-    allok = bad_loop == [] and bad_search == [] and bad_m == [] and bad_h == []
-    ctx.traces = (len(loop_terms) + len(search_terms) + len(mterms) + len(hterms)) if allok else 0
+    # ---------- (e) max_radius0/1 after a sequence of reb_simulation_add calls
+    nr = ctx.scale(200, 2000)
+    rterms = []
+    for k in range(nr):
+        n = rng.randrange(0, 9)
+        pool = [rng.choice([0.0, 0.5, 1.0, 1.0, 2.5, rng.uniform(0, 3)]) for _ in range(4)]
+        rs = [rng.choice(pool) if rng.random() < 0.6 else rng.uniform(0, 3) for _ in range(n)]
+        sim = rebound.Simulation()
+        for i, rr in enumerate(rs):
+            sim.add(m=1.0, x=float(i), r=rr)
+        rterms.append("(radii_fold %s, %s)" % (fl(rs), fl([sim.max_radius[0], sim.max_radius[1]])))
+        ctx.case(key=("radii", n, len(set(rs))), nontrivial=n >= 2)
+    bad_r = run_jobs(ctx, "radii", "bad_cases", rterms, 100)
+    ctx.obligation("correspondence:C13 add_radius_num(binary64) == max_radius0/1 after reb_simulation_add on %d sequences" % len(rterms),
+                   bad_r == [], "mismatching cases: %s" % (bad_r or [])[:5])
+    allok = bad_loop == [] and bad_search == [] and bad_m == [] and bad_h == [] and bad_r == []
+    ctx.traces = (len(loop_terms) + len(search_terms) + len(mterms) + len(hterms) + len(rterms)) if allok else 0
     ctx.extra["input_distribution"] = dict(sorted(dist.items()))
     return allok
 
@@ -208,7 +223,7 @@ def detect_oracle(cfg):
 
 def search_detection(ctx, rebound, fails):
     rng = ctx.rng
-    n = ctx.scale(900, 12000)
+    n = ctx.scale(600, 12000)
     for k in range(n):
         u = rng.random()
         tree = u < 0.45
@@ -416,15 +431,60 @@ def search_linetree_regression(ctx, rebound, fails):
                                    "reports for the mirrored forward step)")))
 
 
+def stale_radius_cfg(mode):
+    r0 = 0.8
+    A = (-1.06, -1.06, -1.06); B = (0.06, 0.06, 0.06)
+    P = [A, B, (A[0] + 0.5, A[1] - 0.5, A[2]), (B[0] - 0.5, B[1] + 0.5, B[2]), (-1.9, -1.9, -1.9), (0.9, 0.9, 0.9)]
+    return dict(N=6, periodic=False, box=8.0, x=[p[0] for p in P], y=[p[1] for p in P], z=[p[2] for p in P],
+                vx=[0.0] * 6, vy=[0.0] * 6, vz=[0.0] * 6, m=[1.0, 1.0, 1e-9, 1e-9, 1e-9, 1e-9],
+                r=[r0, r0, r0, r0, 0.0, 0.0], tree=(mode == "tree"), keep=0, mode=mode, seed=1, t=1.0, dt=0.01)
+
+
+def search_stale_radius_regression(ctx, rebound, fails):
+    """two steps: step 1 merges (0,2) and (1,3) -> two spheres of radius 0.8*2^(1/3) = 1.008 at distance 1.94 (overlapping);
+    reb_collision_resolve_merge does not update max_radius0/1 (still 0.8), so in step 2 the TREE walk prunes with
+    p1.r + 0.8 + 0.866 w and both walks miss the pair that DIRECT reports."""
+    clib = rebound.clibrebound
+    res = {}
+    for mode in ("direct", "tree"):
+        sim = L.make_sim(rebound, stale_radius_cfg(mode))
+        sim.collision_resolve = "merge"
+        clib.reb_collision_search(ctypes.byref(sim))
+        sim.t = 2.0
+        if mode == "tree":
+            clib.reb_simulation_update_tree(ctypes.byref(sim))
+        seen = set()
+        def cb(sp, c, seen=seen):
+            s = sp.contents
+            seen.add(frozenset((s.particles[c.p1].hash.value, s.particles[c.p2].hash.value)))
+            return 0
+        L.search(rebound, sim, cb)
+        res[mode] = (seen, sim.N, sim.max_radius[0], sim.max_radius[1], max(sim.particles[i].r for i in range(sim.N)))
+        ctx.evaluations += 1
+    want = frozenset((1000, 1001))
+    if want not in res["direct"][0] or res["direct"][1] != 4:
+        fails.append(("detect:direct:missed:after_merge", dict(kind="two-step", cfg=cfg_replay(stale_radius_cfg("direct")),
+                                                               problem="DIRECT misses the pair of merged spheres in the second step")))
+    if want not in res["tree"][0]:
+        fails.append(("detect:tree:missed:stale_max_radius",
+                      dict(kind="two-step", cfg=cfg_replay(stale_radius_cfg("tree")),
+                           problem="after merging, max_radius = (%r, %r) but the largest radius is %r; TREE misses the overlapping pair "
+                                   "(1000,1001) in the next step, DIRECT reports it" % res["tree"][2:5])))
+
+
 # ================================================================================================ entry point
 def run(ctx):
     libdir = ctx.lib()
     rebound = load(libdir)
     proved = ctx.prove("C13", extra_targets=["C13/Run.vo"])
+    ctx.log("proofs checked")
     corr_ok = correspondence(ctx, rebound)
+    ctx.log("correspondence done")
     fails = []
     search_linetree_regression(ctx, rebound, fails)
+    search_stale_radius_regression(ctx, rebound, fails)
     search_detection(ctx, rebound, fails)
+    ctx.log("detection searcher done")
     search_merge(ctx, rebound, fails)
     search_hardsphere(ctx, rebound, fails)
     seen = set()
